@@ -31,7 +31,7 @@ ASSUMPTIONS = ['one-shot bytes.decode of the standard library is the definition 
                '(the BOM-sniffing utf-16/utf-32 incremental decoders legitimately differ from one-shot decoding on garbage)',
                'the stream never ends inside a character']
 REQUIRED = ['splittings', 'cuts_inside_character', 'transport_fd', 'transport_socket', 'transport_async_direct',
-            'transport_async_loop', 'transport_mixed_loop', 'transport_pty', 'transport_popen', 'log_compared', 'bytes_mode_cases']
+            'transport_async_loop', 'transport_mixed_loop', 'transport_pty', 'transport_popen', 'log_compared', 'bytes_mode_cases', 'interact_sessions_with_cut_characters']
 
 CODECS = ['utf-8', 'utf-16', 'utf-16-le', 'utf-32', 'latin-1', 'cp1252', 'shift_jis', 'euc_jp', 'gb18030', 'utf-8-sig',
           'utf-16-be', 'utf-32-be', 'big5']
@@ -413,6 +413,10 @@ def plan(tier, seed):
             specs.append({'mode': 'rand', 'n': b - a, 'shard': i, 'seed': seed})
         for i in range(4):
             specs.append({'mode': 'slow', 'n': 600, 'shard': i, 'seed': seed})
+    # interact() in unicode mode with logs: output cut inside characters, keystrokes in between (the log check of C11
+    # on sessions made for this purpose)
+    for i in range(2):
+        specs.append({'mode': 'interact', 'n': 5 if tier == 'quick' else 40, 'shard': 60 + i, 'seed': seed})
     return specs
 
 
@@ -422,7 +426,17 @@ PTY_CODECS = (None, 'utf-8', 'latin-1', 'cp1252', 'shift_jis', 'euc_jp', 'gb1803
 
 def run_shard(spec, acc):
     if 'replay' in spec:
+        if spec['replay'].get('interact'):
+            from . import c15
+            return c15.interact_log_case(spec['replay'], acc)
         return one(spec['replay'], acc)
+    if spec['mode'] == 'interact':
+        from . import c15
+        rng = rng_for(spec['seed'], spec['shard'], 715)
+        for _ in range(spec['n']):
+            acc.count('interact_sessions_with_cut_characters')
+            c15.interact_log_case(c15.gen_case(rng, for_log='split'), acc)
+        return
     rng = rng_for(spec['seed'], spec['shard'], {'enum': 71, 'rand': 72, 'slow': 73}[spec['mode']])
     made = 0
     while made < spec['n'] and not acc.too_many():
